@@ -352,6 +352,34 @@ func c10Universe(maxDepth int) ([]*c10Type, explore.Stats) {
 		}
 		all = append(all, extra...)
 	}
+	// records whose FIELD NAMES are names the emitted Go uses itself: Value (the payload field of a union case
+	// struct), E0 / E1 (the fields of frt.Tuple2) - alone, as the payload of a union and as slice elements
+	{
+		namings := [][2]string{{"Value", "Other"}, {"Other", "Value"}, {"E0", "E1"}, {"Value", "Value2"}}
+		var extra []*c10Type
+		for _, nm := range namings {
+			for _, c0 := range leaves {
+				for _, c1 := range leaves {
+					id := len(all) + len(extra)
+					name := fmt.Sprintf("R%d", id)
+					t := &c10Type{id: id, kind: "record-emitted-field-names", fo: name, gt: name, comps: []*c10Type{c0, c1}}
+					t.decl = fmt.Sprintf("type %s = {%s: %s; %s: %s}\n", name, nm[0], c0.fo, nm[1], c1.fo)
+					for _, v0 := range c0.small(2) {
+						for _, v1 := range c1.small(2) {
+							t.vals = append(t.vals, c10Val{name + "{" + v0.canon + ";" + v1.canon + "}", fmt.Sprintf("%s{%s: %s, %s: %s}", name, nm[0], v0.goX, nm[1], v1.goX), "record literal"})
+						}
+					}
+					t.depth = 1
+					extra = append(extra, t)
+					for _, k := range []int{4, 6} {
+						comps := []*c10Type{t, leaves[(id+1)%len(leaves)]}[:c10Arity[k]]
+						extra = append(extra, c10Build(len(all)+len(extra), k, comps))
+					}
+				}
+			}
+		}
+		all = append(all, extra...)
+	}
 	for i, t := range all {
 		if t.id != i {
 			// ids are assigned in enumeration order; names embed them
